@@ -10,11 +10,11 @@ BEGIN = '<!-- GENERATED:BEGIN (mkdesign_appendix.py) -->'
 END = '<!-- GENERATED:END -->'
 
 out = [BEGIN, '',
-       '## 8. Rule inventory as implemented (generated from the evidence of the last run)', '',
+       '## 9. Rule inventory as implemented (generated from the evidence of the last run)', '',
        'Per property: every rule the checker evaluates, the number of obligations (rule instances',
        'at named constructs) per build configuration on the current tree, the vacuity floor the check',
        'enforces (fewer instances than the floor = failure), and by which means the instances were discharged.',
-       'The seeds column lists the seeded changes (section 9) that make the rule fire.', '']
+       'The seeds column lists the seeded changes (section 10) that make the rule fire.', '']
 
 seeds = {}
 for mp in sorted(glob.glob(f'{V}/seeded/*/meta.json')):
@@ -52,7 +52,7 @@ for i in range(1, 21):
         out.append(f'| {r} | {n} | {fl} | {by} | {sd} |')
     out.append('')
 
-out += ['## 9. Seeded changes and which checks catch them (generated)', '',
+out += ['## 10. Seeded changes and which checks catch them (generated)', '',
         'Each seeded change was written by an independent sub-agent that saw only the property text and a',
         'scratch worktree (nothing from /verif), and was confirmed in a scratch worktree: the demonstration passes',
         'on the unchanged tree; with the change the project builds, the existing suite passes, the demonstration fails.',
@@ -68,7 +68,7 @@ for sid in sorted(seeds):
     files = ', '.join(m.get('files_changed', []))
     out.append(f'| {sid} | {m["property"]} | {files} | {", ".join(own) if own else "**missed**"} | {others} |')
 out += ['', f'{nd} of {len(seeds)} seeded changes are detected by the check of their own property. '
-        'Misses are discussed in section 10.', '', END]
+        'Misses are discussed in section 8.', '', END]
 
 text = open(f'{V}/DESIGN.md').read()
 block = '\n'.join(out)
